@@ -547,23 +547,25 @@ func checkCustomerTaint(c *report.Ctx) {
 	}
 	c.Check("R-WIRE", envT+"/reserved-values-from-dedicated-fields", "reserved layers receive their values only from the dedicated scalar arguments (handler, function name/version, credentials, address), never from a customer-supplied map", len(bad) == 0 && n >= 8, token.NoPos, n, "%d stores; suspicious: %v", n, bad)
 	// the customer map of the init request flows into the customer merge only
-	if f := fn(c, "L/rapidcore/env", "(*Environment).storeNonCredentialEnvironmentVariablesFromInit"); f != nil {
+	for _, f := range envInitStoreFns(c) {
 		ok := false
 		nuse := 0
 		for _, p := range f.Params {
-			if p.Name() != "customerEnv" {
-				continue
-			}
-			nuse = len(*p.Referrers())
+			merged := false
 			for _, call := range an.CallsTo(f, "L/rapidcore/env.mapUnion") {
 				for _, v := range variadicValues(call.Common().Args[0]) {
 					if v == ssa.Value(p) {
 						if st := storedToField(call, envT, "Customer"); st {
-							ok = true
+							merged = true
 						}
 					}
 				}
 			}
+			if !merged {
+				continue
+			}
+			ok = true
+			nuse = len(*p.Referrers())
 		}
 		c.Check("R-WIRE", an.FuncName(f)+"/customer-map-only-merged", "the customer-supplied map is used only as the argument of the customer merge", ok && nuse == 1, fpos(f), nuse, "uses of customerEnv: %d; merged into the customer layer: %v", nuse, ok)
 	}
